@@ -1,12 +1,13 @@
 import Toodee.Impl.Serde
 import Toodee.Spec.Inv
 import Toodee.Proofs.SerdeLemmas
+import Toodee.Proofs.SerdeExact
 /-
   C19 — Deserialisation accepts only consistent documents and never panics.
 
   For **every** document: the outcome is an error, or an array that satisfies the shape invariant and whose dimensions and
   cells are stated in the document (the `num_cols` / `num_rows` entries and one of the `data` entries — a repeated `data` key
-  overwrites); it is never a panic.  Documents whose dimensions overflow, disagree with the data length, or have exactly one
+  overwrites; `C19_exact`: it is the last one, the dimensions are stated exactly once and there is no other key); it is never a panic.  Documents whose dimensions overflow, disagree with the data length, or have exactly one
   zero dimension are rejected.
 -/
 namespace Toodee
@@ -66,6 +67,17 @@ theorem C19_accepts (dec : JVal → Option α) (kvs : List (String × JVal)) (nc
   obtain ⟨hc, hr⟩ := dims_lt_word hz hw
   rw [deserialize_of_visit dec kvs nc nr data (visitLoop_of_perm dec kvs nc nr v data hk hd hc hr),
     if_pos ⟨hw, hlen, hz⟩]
+
+/-- **an accepted document, exactly**: it has only the three known keys, states each dimension once (the array's), and the
+    **last** `data` entry is the array's cells — "dimensions and cells are exactly those stated in the document" with the one
+    liberty the visitor takes (a repeated `data` key overwrites) pinned down -/
+theorem C19_exact (dec : JVal → Option α) (kvs : List (String × JVal)) (t : TD α)
+    (h : deserialize dec (.obj kvs) = .ok t) :
+    (∀ kv ∈ kvs, kv.1 = "num_cols" ∨ kv.1 = "num_rows" ∨ kv.1 = "data") ∧
+    kvs.filter (fun kv => kv.1 == "num_cols") = [("num_cols", JVal.num t.numCols)] ∧
+    kvs.filter (fun kv => kv.1 == "num_rows") = [("num_rows", JVal.num t.numRows)] ∧
+    ∃ v, (kvs.filter (fun kv => kv.1 == "data")).getLast? = some ("data", v) ∧ decVec dec v = some t.data :=
+  deserialize_exact dec kvs t h
 
 /-- the element codec used by the non-vacuity examples: natural-number literals -/
 private def decNat : JVal → Option Nat
